@@ -71,7 +71,7 @@ def real_binary_part(ctx, ninja, known):
         open(d + '/build.ninja', 'wb').write(b'rule r\n  command = ' + cmd_bytes.replace(b'$', b'$$') + b'\nbuild o: r\nrule u\n  command = caf\xc3\xa9 \xe2\x82\xac\nbuild o2: u\nrule bad\n  command = x\xe9\xff y\nbuild o3: bad\n')
         r = run('-t', 'compdb'); n += 1
         try:
-            js = json.loads(r.stdout.decode('utf-8', errors='surrogateescape').encode('utf-8', errors='surrogateescape').decode('utf-8'))
+            js = json.loads(r.stdout)          # bytes: must be valid UTF-8 JSON text (RFC 8259)
             got = [e['command'] for e in js if e['output'] == 'o']
             if got and got[0].encode() != cmd_bytes: ctx.violation('compdb-json', 'real binary compdb\n', 'command with control bytes does not round-trip through compdb JSON')
         except Exception as ex:
@@ -119,6 +119,21 @@ def run(ctx):
             line = engine.build_step(targets=st.targets, j=1, k=1, sched=[0] * 20, dry=dry)
             h.add(ec.Step('build', line, g=st.g if False else __import__('copy').deepcopy(h.g), sources=dict(h.sources), targets=list(st.targets), opts=dict(j=1, k=1, dry=dry)))
         hists.append(h)
+    # a leftover depfile of a deps=gcc statement (e.g. from an earlier failed command) must survive a dry run
+    probes = []
+    for i in range(20):
+        g = engine.Graph(); g.sources = {'s': 'x', 'h': 'y'}
+        e = engine.Edge(0); e.outs = ['o']; e.exp = ['s']; e.deps = 'gcc'; e.depfile = 'o.d'; e.hidden = ['h']; g.edges = [e]
+        if i % 2:
+            e2 = engine.Edge(1); e2.outs = ['p']; e2.exp = ['o']; e2.rsp = 'sub/p.rsp'; g.edges.append(e2)
+        h = ec.Hist('C19_probe%d' % i, g)
+        h.build(rnd, None, j=1, k=1, sched=[0] * 4)
+        h.edit('o.d', 'o: h\n'); h.edit('s', 'x2')
+        import copy as _c
+        h.add(ec.Step('build', engine.build_step(j=1, k=1, sched=[0] * 4, dry=1), g=_c.deepcopy(g), sources=dict(h.sources), targets=[], opts=dict(j=1, k=1, dry=1)))
+        h.add(ec.Step('build', engine.build_step(j=1, k=1, sched=[0] * 4), g=_c.deepcopy(g), sources=dict(h.sources), targets=[], opts=dict(j=1, k=1)))
+        probes.append(h)
+    hists += probes
     rc, tr, err, out = ec.run_hists(hists)
     nd = 0
     for h in hists:
@@ -129,8 +144,11 @@ def run(ctx):
         dry_started = [engine.uh(ev[2]) for ev in b1.events if ev[0] == 'st' and ev[1] == 'started']
         if b1.started: ctx.violation('dry-run-executes', h.text(), '%s: the dry run executed commands %s' % (h.sid, b1.started))
         # undisturbed: files (apart from the edit we made) and both logs' meaning
-        f0 = dict(b0.files); f0[[s for s in h.steps if s.kind == 'edit'][-1].path] = None
-        f1 = dict(b1.files); f1[[s for s in h.steps if s.kind == 'edit'][-1].path] = None
+        edited = {s.path for s in h.steps[h.steps.index(s0) + 1:h.steps.index(s1)] if s.kind == 'edit'}
+        f0 = {k: v for k, v in b0.files.items() if k not in edited}
+        f1 = {k: v for k, v in b1.files.items() if k not in edited}
+        for k in edited:
+            if k not in b1.files: f0[k] = 'present-before'; f1[k] = None
         chg = sorted(k for k in set(f0) | set(f1) if f0.get(k) != f1.get(k))
         if chg or b1.log != b0.log or b1.deps != b0.deps:
             txt = '%s: the dry run changed %s (log changed: %s, deps changed: %s)' % (h.sid, chg[:4], b1.log != b0.log, b1.deps != b0.deps)
